@@ -39,10 +39,15 @@ def parse_tables(repo):
         vals = [v.strip() for v in m.group(2).replace("\n", " ").split(",") if v.strip()]
         out[name] = (int(m.group(1)), vals)
     for name in ("ZIG_NORM_R", "ZIG_EXP_R"):
-        m = re.search(r"const\s+%s\s*:\s*f64\s*=\s*([-+0-9.eE_]+)\s*;" % name, src)
+        m = re.search(r"(?:const|static)\s+%s\s*:\s*f64\s*=\s*([-+0-9.eE_]+)\s*;" % name, src)
+        if m:
+            out[name] = m.group(1)
+            continue
+        # the constant may be defined by reference to a table entry, e.g. `= ZIG_EXP_X[1];`
+        m = re.search(r"(?:const|static)\s+%s\s*:\s*f64\s*=\s*(ZIG_(?:NORM|EXP)_[XF])\s*\[\s*(\d+)\s*\]\s*;" % name, src)
         if not m:
             raise ValueError("cannot parse %s" % name)
-        out[name] = m.group(1)
+        out[name] = out[m.group(1)][1][int(m.group(2))]
     gen = open(os.path.join(repo, "utils", "ziggurat_tables.py")).read()
     for name in ("NORM_V", "EXP_V", "NORM_R", "EXP_R"):
         m = re.search(r"^%s\s*=\s*([-+0-9.eE]+)\s*$" % name, gen, re.M)
